@@ -161,6 +161,9 @@ class IndexDir:
         elif file.suffix.lower() != '.gtf':
             raise ValueError(f"Cannot handle gtf file {file}")
 
+        if self.annotation_file.is_symlink() or self.annotation_file.exists():
+            self.annotation_file.unlink()
+
         if symlink:
             os.symlink(file.absolute(), self.annotation_file)
         elif file.suffix.lower() == '.gtf':
